@@ -2161,6 +2161,9 @@ impl Block {
                 debug!(
                     "miner_publickey is not set or payout is zero. Not adding to fee transaction"
                 );
+                // (the key in a golden ticket is the solver's choice: a payout nobody can receive goes where
+                // the routers' does)
+                graveyard_contribution += miner_payout;
             }
 
             if router1_payout > 0 {
